@@ -70,6 +70,37 @@ def vec_child_ok(arm_term, sym):
     return bad, n
 
 
+def tree_walk(run, m, ev, arms, ftypes, tag="C20"):
+    """eval is a structural recursion: no arm looks inside a child, a child is used only as the argument of the
+    recursive eval call.  Returns the number of child uses inspected."""
+    total_uses = 0
+    for ctor, a in sorted(arms.items()):
+        tys = ftypes.get(ctor, [])
+        # no nested pattern on a child, no guard
+        pat = a["pat"]
+        nested = any(not (s == "_" or (isinstance(s, tuple) and s[0] == "bind")) for s in pat[2:]) if isinstance(pat, tuple) and pat[0] == "pvar" else True
+        run.ob(not nested and not a["guard"], "no-peek|%s|%s" % (ev, ctor), tag + " the arm pattern does not look inside a child (no nested pattern, no guard)", "%s arm %s" % (where(m, "::ast::eval"), ctor), T.show(pat)[:160])
+        for k, ty in enumerate(tys):
+            sym = ("C%d" % k,)
+            if "Box<" in ty and "Node" in ty:
+                bad = []
+                n = 0
+                for path in child_uses(a["term"], sym):
+                    n += 1
+                    parent, idx = path[-1]
+                    if not (parent[0] == "ev" and idx == 1 and len(parent) == 2):
+                        bad.append(T.show(parent)[:140])
+                total_uses += n
+                run.ob(not bad, "child-use|%s|%s|%d" % (ev, ctor, k), tag + " a child is used only as the argument of the recursive eval call", "%s arm %s" % (where(m, "::ast::eval"), ctor),
+                       "child %d used in: %s" % (k, bad[:3]), sample={"evaluator": ev, "ctor": ctor, "child": k, "uses": n} if ctor in ("Add", "Pow") else None)
+            elif "Vec<" in ty and "Node" in ty:
+                bad, n = vec_child_ok(a["term"], sym)
+                total_uses += n
+                run.ob(not bad, "child-use|%s|%s|%d" % (ev, ctor, k), tag + " an argument list is only measured, iterated, and its elements passed to eval", "%s arm %s" % (where(m, "::ast::eval"), ctor),
+                       "; ".join(bad[:3]), sample={"evaluator": ev, "ctor": ctor, "list_uses": n} if ctor == "Min" else None)
+    return total_uses
+
+
 def main(tier):
     run, F, models = setup(PID, tier, LEVEL)
     run.trusted = ["determinism of evaluation (C16)", "structural induction over contexts written in DESIGN.md 5/C20"]
@@ -85,30 +116,7 @@ def main(tier):
         ftypes = {v["name"]: [f["ty"] for f in v["fields"]] for v in node["variants"]}
         run.ob(set(arms) == set(ftypes), "arms-cover|%s" % ev, "C20 eval has exactly one arm per Node constructor", where(m, "::ast::eval"),
                "arms %s vs constructors %s" % (sorted(set(arms) - set(ftypes)), sorted(set(ftypes) - set(arms))))
-        for ctor, a in sorted(arms.items()):
-            tys = ftypes.get(ctor, [])
-            # no nested pattern on a child, no guard
-            pat = a["pat"]
-            nested = any(not (s == "_" or (isinstance(s, tuple) and s[0] == "bind")) for s in pat[2:]) if isinstance(pat, tuple) and pat[0] == "pvar" else True
-            run.ob(not nested and not a["guard"], "no-peek|%s|%s" % (ev, ctor), "C20 the arm pattern does not look inside a child (no nested pattern, no guard)", "%s arm %s" % (where(m, "::ast::eval"), ctor), T.show(pat)[:160])
-            for k, ty in enumerate(tys):
-                sym = ("C%d" % k,)
-                if "Box<" in ty and "Node" in ty:
-                    bad = []
-                    n = 0
-                    for path in child_uses(a["term"], sym):
-                        n += 1
-                        parent, idx = path[-1]
-                        if not (parent[0] == "ev" and idx == 1 and len(parent) == 2):
-                            bad.append(T.show(parent)[:140])
-                    total_uses += n
-                    run.ob(not bad, "child-use|%s|%s|%d" % (ev, ctor, k), "C20 a child is used only as the argument of the recursive eval call", "%s arm %s" % (where(m, "::ast::eval"), ctor),
-                           "child %d used in: %s" % (k, bad[:3]), sample={"evaluator": ev, "ctor": ctor, "child": k, "uses": n} if ctor in ("Add", "Pow") else None)
-                elif "Vec<" in ty and "Node" in ty:
-                    bad, n = vec_child_ok(a["term"], sym)
-                    total_uses += n
-                    run.ob(not bad, "child-use|%s|%s|%d" % (ev, ctor, k), "C20 an argument list is only measured, iterated, and its elements passed to eval", "%s arm %s" % (where(m, "::ast::eval"), ctor),
-                           "; ".join(bad[:3]), sample={"evaluator": ev, "ctor": ctor, "list_uses": n} if ctor == "Min" else None)
+        total_uses += tree_walk(run, m, ev, arms, ftypes)
         # eval builds no Node
         ef = m.tb.eval_fn()
         built = 0
@@ -142,6 +150,23 @@ def main(tier):
             t = m.tb.fn_term(f)
             guarded = [s for s in subterms(t) if isinstance(s, tuple) and s and s[0] == "match" and unify(("field", ("param", "self"), "current_token"), s[1]) is not None and any(len(a) == 3 for a in s[2:])]
             run.ob(not guarded, "unguarded|%s|%s" % (ev, nm), "C20 the token dispatch has no side conditions", where(m, "::parser::Parser::" + nm), "guarded arm in token match")
+    # the parser is parametric in the sub-trees it combines: it never looks inside a Node it has built (a rewrite keyed
+    # on the shape of an operand -- Pow(Negative(b), n) -> Negative(Pow(b, n)), x^0.5 -> sqrt -- tells `(E)` from `@`)
+    npf = 0
+    for ev, m in models.items():
+        peeks = []
+        for g in F.fns:
+            if g.evaluator != ev or not g.thir or g.derived or "::parser::" not in g.key:
+                continue
+            npf += 1
+            for s_ in subterms(m.tb.fn_term(g)):
+                if isinstance(s_, tuple) and len(s_) >= 2 and s_[0] == "pvar" and isinstance(s_[1], str) and s_[1].startswith("Node::"):
+                    peeks.append("%s matches %s" % (g.short, s_[1]))
+                if isinstance(s_, tuple) and len(s_) >= 2 and s_[0] == "call" and isinstance(s_[1], str) and s_[1].startswith("<Node as cmp::PartialEq>::"):
+                    peeks.append("%s compares nodes" % g.short)
+        run.ob(not peeks, "parser-parametric|%s" % ev, "C20 the parser never inspects a sub-tree it has parsed: what it builds around an operand does not depend on the operand", "%s::parser" % ev, "; ".join(peeks[:4]),
+               sample={"evaluator": ev, "node_patterns_in_parser": 0})
+    run.floor("parser functions scanned", npf, 50)
     bad_statics = [s_ for s_ in F.doc["statics"] if s_["mutable"] or not s_["freeze"] or s_["thread_local"]]
     run.ob(not bad_statics, "no-state", "C20 the library keeps no state between the three calls (C16)", "crate statics", "; ".join(s_["path"] for s_ in bad_statics)[:300])
     report_issues(run, models, tables={"T_prim", "T_lex", "T_eval"})
